@@ -4,6 +4,8 @@ from world import amounts, enc_f64, dec_f64, f64_next, enc_dec, dec_dec
 ID = "C09"
 LEAN_MODULES = ["QtyModel.Props.C09", "QtyModel.Props.C09Keys", "QtyModel.Props.TieFit", "QtyModel.Props.TieSymbol", "QtyModel.Props.TieAnalyze", "QtyModel.Props.TieCodegen"]
 HARNESS_GROUPS = ()
+# kinds of difference in the macro-level correspondence (tools/macrofront.py) that are failing inputs here
+MACRO_PARTS = ("units", "consts", "variants")
 RULE = ("registry dump (iteration order, names, symbols, prefixes, scales, REF_UNIT, constants) of every type; lookup by "
         "every declared symbol, case-flipped / edited near misses and random strings; lookup by every declared scale, "
         "+-1 ulp / last digit and random amounts; non-trivial = distinct op lines")
